@@ -101,6 +101,12 @@ structure Inv (k : Kind) (s : St) : Prop where
   cMoved : ∀ h x, s.cpc = .moved h x → x = s.head ∧ h ∉ s.q
   cGotData : ∀ h x d, s.cpc = .gotData h x d → h ∉ s.q
   cWrote : ∀ h d, s.cpc = .wrote h d → s.data h = d ∧ h ∉ s.q
+  cPkGotHead : ∀ h, s.cpc = .pkGotHead h → h = s.head
+  cPkGotNext : ∀ h x, s.cpc = .pkGotNext h x → h = s.head ∧ (x ≠ 0 → s.next h = x)
+  /-- the payload a peek has read is the `data` of the node right behind the stub -/
+  cPkGotData : ∀ h x d, s.cpc = .pkGotData h x d → s.q[1]? = some x ∧ s.data x = d
+  /-- a peek that returned after `i` successful trypops reported the `i`-th published payload -/
+  pk : ∀ i v, (i, v) ∈ s.peeked → s.pushed[i]? = some v
 
 theorem inv_init (k : Kind) (stub : Nat) (h0 : stub ≠ 0) : Inv k (init stub) := by
   constructor <;> simp [init, inflight, Owned]
@@ -111,7 +117,8 @@ macro "inv_frame " h:term : tactic => `(tactic| first
   | exact ($h).qpos | exact ($h).hq | exact ($h).tl | exact ($h).nd | exact ($h).nz
   | exact ($h).lk | exact ($h).last | exact ($h).pHave | exact ($h).pClr | exact ($h).pGot
   | exact ($h).pX | exact ($h).pXs | exact ($h).single | exact ($h).vals | exact ($h).cGotHead
-  | exact ($h).cGotNext | exact ($h).cMoved | exact ($h).cGotData | exact ($h).cWrote)
+  | exact ($h).cGotNext | exact ($h).cMoved | exact ($h).cGotData | exact ($h).cWrote
+  | exact ($h).cPkGotHead | exact ($h).cPkGotNext | exact ($h).cPkGotData | exact ($h).pk)
 
 theorem inflight_congr {s s' : St} (hc : s'.cpc = s.cpc)
     (hd : ∀ h x, s.cpc = .moved h x → s'.data x = s.data x) : inflight s' = inflight s := by
@@ -135,6 +142,32 @@ theorem vals_frame {s s' : St}
 
 theorem head_mem {k : Kind} {s : St} (h : Inv k s) : s.head ∈ s.q := mem_of_idx h.hq
 theorem tail_mem {k : Kind} {s : St} (h : Inv k s) : s.tail ∈ s.q := mem_of_idx h.tl
+
+/-- a non-NULL `next` of the stub is the second node of `q` -/
+theorem second_of_next {k : Kind} {s : St} (hI : Inv k s) {x : Nat} (hx : x ≠ 0)
+    (hnx : s.next s.head = x) : s.q[1]? = some x := by
+  have hq0 := hI.hq
+  have hlen : 1 < s.q.length := by
+    by_cases hl : s.q.length = 1
+    · have htl := hI.tl
+      rw [hl] at htl
+      simp only [Nat.sub_self] at htl
+      rw [hq0] at htl
+      have : s.head = s.tail := Option.some.inj htl
+      have := hI.last
+      grind
+    · have := hI.qpos; omega
+  have hb : s.q[1]? = some (s.q[1]'hlen) := List.getElem?_eq_getElem hlen
+  have := hI.lk 0 s.head _ hq0 hb
+  rw [hb]; grind
+
+/-- the payload right behind the stub is the next one to be returned: it is
+    `pushed[popped.length]` whenever no trypop holds a payload in its hands -/
+theorem front_payload {k : Kind} {s : St} (hI : Inv k s) (hin : inflight s = []) {x : Nat}
+    (hq1 : s.q[1]? = some x) : s.pushed[s.popped.length]? = some (s.data x) := by
+  rw [hI.vals, hin, List.append_nil, List.getElem?_append_right (Nat.le_refl _), Nat.sub_self,
+    drop1_eq_cons hq1]
+  rfl
 
 section steps
 variable {k : Kind} {s s' : St}
@@ -182,6 +215,12 @@ theorem inv_wrDataClient {t n x : Nat} (h : Inv k s)
         have := h.cWrote _ _ hw
         have hn : s.cpc.node = h' := by rw [hw]; rfl
         simp only [upd_apply]; grind
+      case cPkGotData =>
+        intro h' x' d hg
+        obtain ⟨hq1, hd⟩ := h.cPkGotData _ _ _ hg
+        have := mem_of_idx hq1
+        refine ⟨hq1, ?_⟩
+        simp only [upd_apply]; grind
     next => simp at hs
   next => simp at hs
 
@@ -223,6 +262,10 @@ theorem inv_wrNext {t n x : Nat} (h : Inv k s)
       case cGotNext =>
         intro h' x' hg
         have := h.cGotNext _ _ hg
+        simp only [upd_apply]; grind
+      case cPkGotNext =>
+        intro h' x' hg
+        have := h.cPkGotNext _ _ hg
         simp only [upd_apply]; grind
     next => simp at hs
   next v m p hpc =>
@@ -291,6 +334,10 @@ theorem inv_wrNext {t n x : Nat} (h : Inv k s)
       case cGotNext =>
         intro h' x' hg
         have := h.cGotNext _ _ hg
+        simp only [upd_apply]; grind
+      case cPkGotNext =>
+        intro h' x' hg
+        have := h.cPkGotNext _ _ hg
         simp only [upd_apply]; grind
     next => simp at hs
   next => simp at hs
@@ -384,6 +431,15 @@ theorem inv_publish {t v n p : Nat} (h : Inv k s) (hown : Owned s t v n) (hnext 
     simp [hdat]
   case cGotHead => exact h.cGotHead
   case cGotNext => exact h.cGotNext
+  case cPkGotHead => exact h.cPkGotHead
+  case cPkGotNext => exact h.cPkGotNext
+  case cPkGotData =>
+    intro h' x' d hg
+    obtain ⟨hq1, hd⟩ := h.cPkGotData _ _ _ hg
+    exact ⟨idx_app _ hq1, hd⟩
+  case pk =>
+    intro i w hm
+    exact idx_app _ (h.pk _ _ hm)
   case cMoved =>
     intro h' x' hm
     simp only [publish] at hm
@@ -511,6 +567,19 @@ theorem inv_rdHead {t x : Nat} (h : Inv k s)
       case cGotHead => intro h' hh; simp at hh; rw [← hh, hx]
       all_goals simp
     next => simp at hs
+  next hcp =>
+    split at hs
+    next hc =>
+      obtain ⟨ht, hx⟩ := hc
+      simp only [Option.some.injEq] at hs; subst hs
+      constructor <;> try inv_frame h
+      case pHave => have := h.pHave; simp only [Owned, CPc.node] at *; grind
+      case pClr => have := h.pClr; simp only [Owned, CPc.node] at *; grind
+      case pGot => have := h.pGot; simp only [Owned, CPc.node] at *; grind
+      case vals => have := h.vals; simp only [inflight, hcp] at *; exact this
+      case cPkGotHead => intro h' hh; simp at hh; rw [← hh, hx]
+      all_goals simp
+    next => simp at hs
   next => simp at hs
 
 theorem inv_rdNext {t n x : Nat} (h : Inv k s)
@@ -529,6 +598,20 @@ theorem inv_rdNext {t n x : Nat} (h : Inv k s)
       case pGot => have := h.pGot; simp only [Owned, CPc.node] at *; grind
       case vals => have := h.vals; simp only [inflight, hcp] at *; exact this
       case cGotNext => intro h' x' hg; simp at hg; grind
+      all_goals simp
+    next => simp at hs
+  next h0 hcp =>
+    split at hs
+    next hc =>
+      obtain ⟨ht, hn, hx⟩ := hc
+      simp only [Option.some.injEq] at hs; subst hs
+      have hh := h.cPkGotHead _ hcp
+      constructor <;> try inv_frame h
+      case pHave => have := h.pHave; simp only [Owned, CPc.node] at *; grind
+      case pClr => have := h.pClr; simp only [Owned, CPc.node] at *; grind
+      case pGot => have := h.pGot; simp only [Owned, CPc.node] at *; grind
+      case vals => have := h.vals; simp only [inflight, hcp] at *; exact this
+      case cPkGotNext => intro h' x' hg; simp at hg; grind
       all_goals simp
     next => simp at hs
   next => simp at hs
@@ -631,6 +714,10 @@ theorem inv_wrHead {t x : Nat} (h : Inv k s)
         exact ⟨rfl, hhq⟩
       case cGotData => intro h' x' d hh; simp at hh
       case cWrote => intro h' d hh; simp at hh
+      case cPkGotHead => intro h' hh; simp at hh
+      case cPkGotNext => intro h' x' hh; simp at hh
+      case cPkGotData => intro h' x' d hh; simp at hh
+      case pk => exact h.pk
     next => simp at hs
   next => simp at hs
 
@@ -737,6 +824,82 @@ theorem inv_retPop {t v : Nat} (h : Inv k s)
     next => simp at hs
   next => simp at hs
 
+theorem inv_callPeek {t : Nat} (h : Inv k s)
+    (hs : step k s (.callPeek t) = some s') : Inv k s' := by
+  simp only [step] at hs
+  split at hs
+  next hc =>
+    obtain ⟨_, hidle, hpc⟩ := hc
+    simp only [Option.some.injEq] at hs; subst hs
+    constructor <;> try inv_frame h
+    case pHave => have := h.pHave; simp only [Owned, CPc.node] at *; grind
+    case pClr => have := h.pClr; simp only [Owned, CPc.node] at *; grind
+    case pGot => have := h.pGot; simp only [Owned, CPc.node] at *; grind
+    case vals => have := h.vals; simp only [inflight, hidle] at *; exact this
+    all_goals simp
+  next => simp at hs
+
+theorem inv_rdDataPeek {t n d : Nat} (h : Inv k s)
+    (hs : step k s (.rdDataPeek t n d) = some s') : Inv k s' := by
+  simp only [step] at hs
+  split at hs
+  next h0 x hcp =>
+    split at hs
+    next hc =>
+      obtain ⟨ht, hx0, hn, hd⟩ := hc
+      simp only [Option.some.injEq] at hs; subst hs
+      obtain ⟨hh, hnx⟩ := h.cPkGotNext _ _ hcp
+      have hq1 : s.q[1]? = some x := second_of_next h hx0 (hh ▸ hnx hx0)
+      constructor <;> try inv_frame h
+      case pHave => have := h.pHave; simp only [Owned, hcp, CPc.node] at *; exact this
+      case pClr => have := h.pClr; simp only [Owned, hcp, CPc.node] at *; exact this
+      case pGot => have := h.pGot; simp only [Owned, hcp, CPc.node] at *; exact this
+      case vals => have := h.vals; simp only [inflight, hcp] at *; exact this
+      case cPkGotData =>
+        intro h' x' d' hg
+        simp only [CPc.pkGotData.injEq] at hg
+        obtain ⟨_, rfl, rfl⟩ := hg
+        exact ⟨hq1, hd.symm⟩
+      all_goals simp
+    next => simp at hs
+  next => simp at hs
+
+theorem inv_retPeek {t v : Nat} (h : Inv k s)
+    (hs : step k s (.retPeek t v) = some s') : Inv k s' := by
+  simp only [step] at hs
+  split at hs
+  next h0 y hcp =>
+    split at hs
+    next hc =>
+      simp only [Option.some.injEq] at hs; subst hs
+      constructor <;> try inv_frame h
+      case pHave => have := h.pHave; simp only [Owned, hcp, CPc.node] at *; grind
+      case pClr => have := h.pClr; simp only [Owned, hcp, CPc.node] at *; grind
+      case pGot => have := h.pGot; simp only [Owned, hcp, CPc.node] at *; grind
+      case vals => have := h.vals; simp only [inflight, hcp] at *; exact this
+      all_goals simp
+    next => simp at hs
+  next h0 x d hcp =>
+    split at hs
+    next hc =>
+      simp only [Option.some.injEq] at hs; subst hs
+      obtain ⟨hq1, hd⟩ := h.cPkGotData _ _ _ hcp
+      have hfront := front_payload h (by simp only [inflight, hcp]) hq1
+      constructor <;> try inv_frame h
+      case pHave => have := h.pHave; simp only [Owned, hcp, CPc.node] at *; grind
+      case pClr => have := h.pClr; simp only [Owned, hcp, CPc.node] at *; grind
+      case pGot => have := h.pGot; simp only [Owned, hcp, CPc.node] at *; grind
+      case vals => have := h.vals; simp only [inflight, hcp] at *; exact this
+      case pk =>
+        intro i w hm
+        simp only [List.mem_append, List.mem_singleton, Prod.mk.injEq] at hm
+        rcases hm with hm | ⟨rfl, rfl⟩
+        · exact h.pk _ _ hm
+        · rw [hfront, hd]
+      all_goals simp
+    next => simp at hs
+  next => simp at hs
+
 /-- the structural invariant is inductive -/
 theorem inv_step {e : Ev} (h : Inv k s) (hs : step k s e = some s') : Inv k s' := by
   cases e with
@@ -755,6 +918,9 @@ theorem inv_step {e : Ev} (h : Inv k s) (hs : step k s e = some s') : Inv k s' :
   | wrDataPop t n x => exact inv_wrDataPop h hs
   | rdDataClient t n x => exact inv_rdDataClient h hs
   | retPop t v => exact inv_retPop h hs
+  | callPeek t => exact inv_callPeek h hs
+  | rdDataPeek t n x => exact inv_rdDataPeek h hs
+  | retPeek t v => exact inv_retPeek h hs
 
 end steps
 
@@ -857,9 +1023,23 @@ theorem step_vshape {k : Kind} {s s' : St} {e : Ev} (hs : step k s e = some s') 
   case rdHead t x =>
     split at hs
     next => split at hs <;> simp at hs; subst hs; exact .same rfl rfl rfl rfl
+    next => split at hs <;> simp at hs; subst hs; exact .same rfl rfl rfl rfl
     next => simp at hs
   case rdNext t n x =>
     split at hs
+    next => split at hs <;> simp at hs; subst hs; exact .same rfl rfl rfl rfl
+    next => split at hs <;> simp at hs; subst hs; exact .same rfl rfl rfl rfl
+    next => simp at hs
+  case callPeek t =>
+    split at hs <;> simp at hs
+    subst hs; exact .same rfl rfl rfl rfl
+  case rdDataPeek t n x =>
+    split at hs
+    next => split at hs <;> simp at hs; subst hs; exact .same rfl rfl rfl rfl
+    next => simp at hs
+  case retPeek t v =>
+    split at hs
+    next => split at hs <;> simp at hs; subst hs; exact .same rfl rfl rfl rfl
     next => split at hs <;> simp at hs; subst hs; exact .same rfl rfl rfl rfl
     next => simp at hs
   case wrHead t x =>
@@ -1088,11 +1268,12 @@ theorem returned_when_idle {k : Kind} {stub : Nat} {s s' : St} {es : List Ev} {t
   · rw [hidle] at h; exact absurd h.symm hv
   · exact h
 
-/-- at the instant a trypop reads `head->next = NULL`, either nothing follows the stub or the
-    producer of the next node sits between its publication and its link write -/
-theorem empty_core {k : Kind} {s s' : St} {t h : Nat} (hi : Inv k s)
+/-- a NULL read of `head->next` (by a trypop or by a peek): it is the stub's `next` that was
+    read, and the consumer holds no payload in its hands at that instant -/
+theorem null_read_shape {k : Kind} {s s' : St} {t h : Nat} (hi : Inv k s)
     (hs : step k s (.rdNext t h 0) = some s') :
-    h = s.head ∧ (s.q = [s.head] ∨ ∃ p v n, s.pc p = .xchgd v n s.head ∧ s.q[1]? = some n) := by
+    h = s.head ∧ s.next s.head = 0 ∧ inflight s = [] ∧
+      (s.cpc = .gotHead h ∨ s.cpc = .pkGotHead h) := by
   simp only [step] at hs
   split at hs
   next h0 hcp =>
@@ -1102,23 +1283,40 @@ theorem empty_core {k : Kind} {s s' : St} {t h : Nat} (hi : Inv k s)
       subst hn
       have hh := hi.cGotHead _ hcp
       subst hh
-      refine ⟨rfl, ?_⟩
-      by_cases hl : s.q.length = 1
-      · left
-        have hq := hi.hq
-        match hq' : s.q with
-        | [] => simp [hq'] at hl
-        | [a] => simp [hq'] at hq; rw [hq]
-        | a :: b :: r => simp [hq'] at hl
-      · right
-        have hlen : 1 < s.q.length := by have := hi.qpos; omega
-        have hb : s.q[1]? = some (s.q[1]'hlen) := List.getElem?_eq_getElem hlen
-        have hbz : s.q[1]'hlen ≠ 0 := fun he => hi.nz (by rw [← he]; exact mem_of_idx hb)
-        rcases hi.lk 0 s.head _ hi.hq hb with hnx | ⟨_, p, v, hp⟩
-        · exact absurd (hx ▸ hnx).symm hbz
-        · exact ⟨p, v, _, hp, hb⟩
+      exact ⟨rfl, hx.symm, by simp only [inflight, hcp], Or.inl hcp⟩
+    next => simp at hs
+  next h0 hcp =>
+    split at hs
+    next hc =>
+      obtain ⟨ht, hn, hx⟩ := hc
+      subst hn
+      have hh := hi.cPkGotHead _ hcp
+      subst hh
+      exact ⟨rfl, hx.symm, by simp only [inflight, hcp], Or.inr hcp⟩
     next => simp at hs
   next => simp at hs
+
+/-- at the instant a trypop (or a peek) reads `head->next = NULL`, either nothing follows the
+    stub or the producer of the next node sits between its publication and its link write -/
+theorem empty_core {k : Kind} {s s' : St} {t h : Nat} (hi : Inv k s)
+    (hs : step k s (.rdNext t h 0) = some s') :
+    h = s.head ∧ (s.q = [s.head] ∨ ∃ p v n, s.pc p = .xchgd v n s.head ∧ s.q[1]? = some n) := by
+  obtain ⟨hh, hx, _, _⟩ := null_read_shape hi hs
+  refine ⟨hh, ?_⟩
+  by_cases hl : s.q.length = 1
+  · left
+    have hq := hi.hq
+    match hq' : s.q with
+    | [] => simp [hq'] at hl
+    | [a] => simp [hq'] at hq; rw [hq]
+    | a :: b :: r => simp [hq'] at hl
+  · right
+    have hlen : 1 < s.q.length := by have := hi.qpos; omega
+    have hb : s.q[1]? = some (s.q[1]'hlen) := List.getElem?_eq_getElem hlen
+    have hbz : s.q[1]'hlen ≠ 0 := fun he => hi.nz (by rw [← he]; exact mem_of_idx hb)
+    rcases hi.lk 0 s.head _ hi.hq hb with hnx | ⟨_, p, v, hp⟩
+    · exact absurd (hx ▸ hnx).symm hbz
+    · exact ⟨p, v, _, hp, hb⟩
 
 /-- a trypop that returns 0 really took the "empty" path -/
 theorem ret_zero_core {k : Kind} {s s' : St} {t : Nat} (hi : Inv k s) (hv : VInv s)
@@ -1146,14 +1344,9 @@ theorem ret_zero_core {k : Kind} {s s' : St} {t : Nat} (hi : Inv k s) (hv : VInv
     already been popped -/
 theorem spsc_empty_core {s s' : St} {t h : Nat} (hi : Inv .spsc s) (hv : VInv s)
     (hs : step .spsc s (.rdNext t h 0) = some s') : ∀ v, v ∈ s.returned → v ∈ s.popped := by
-  have hcp : ∃ h0, s.cpc = .gotHead h0 := by
-    simp only [step] at hs
-    split at hs
-    next h0 hcp => exact ⟨h0, hcp⟩
-    next => simp at hs
-  obtain ⟨h0, hcp⟩ := hcp
+  obtain ⟨_, _, hin, _⟩ := null_read_shape hi hs
   have hvals := hi.vals
-  simp only [inflight, hcp, List.append_nil] at hvals
+  simp only [hin, List.append_nil] at hvals
   obtain ⟨_, hq | ⟨p, v, n, hp, hq1⟩⟩ := empty_core hi hs
   · intro w hw
     have := hv.retSub _ hw
@@ -1189,14 +1382,9 @@ theorem spsc_empty_core {s s' : St} {t h : Nat} (hi : Inv .spsc s) (hv : VInv s)
 theorem empty_pending_core {k : Kind} {s s' : St} {t h : Nat} (hi : Inv k s) (hv : VInv s)
     (hs : step k s (.rdNext t h 0) = some s') :
     (∀ v, v ∈ s.returned → v ∈ s.popped) ∨ ∃ p v n p', s.pc p = .xchgd v n p' := by
-  have hcp : ∃ h0, s.cpc = .gotHead h0 := by
-    simp only [step] at hs
-    split at hs
-    next h0 hcp => exact ⟨h0, hcp⟩
-    next => simp at hs
-  obtain ⟨h0, hcp⟩ := hcp
+  obtain ⟨_, _, hin, _⟩ := null_read_shape hi hs
   have hvals := hi.vals
-  simp only [inflight, hcp, List.append_nil] at hvals
+  simp only [hin, List.append_nil] at hvals
   obtain ⟨_, hq | ⟨p, v, n, hp, _⟩⟩ := empty_core hi hs
   · left
     intro w hw
@@ -1204,5 +1392,218 @@ theorem empty_pending_core {k : Kind} {s s' : St} {t h : Nat} (hi : Inv k s) (hv
     rw [hvals, hq] at this
     simpa using this
   · exact Or.inr ⟨p, v, n, _, hp⟩
+
+/-! ### peek -/
+
+/-- the return of a peek: either the empty path (NULL read of `head->next`), or it reports the
+    payload that is next in publication order, `pushed[popped.length]`, and the ghost `peeked`
+    records exactly that -/
+theorem peek_ret_core {k : Kind} {s s' : St} {t v : Nat} (hi : Inv k s) (hv : VInv s)
+    (hs : step k s (.retPeek t v) = some s') :
+    (v = 0 ∧ (∃ h, s.cpc = .pkGotNext h 0) ∧ s'.peeked = s.peeked) ∨
+      (v ≠ 0 ∧ s.pushed[s.popped.length]? = some v ∧
+        s'.peeked = s.peeked ++ [(s.popped.length, v)]) := by
+  simp only [step] at hs
+  split at hs
+  next h0 y hcp =>
+    split at hs
+    next hc =>
+      simp only [Option.some.injEq] at hs; subst hs
+      obtain ⟨_, hy, hv0⟩ := hc
+      exact Or.inl ⟨hv0, ⟨h0, by rw [hcp, hy]⟩, rfl⟩
+    next => simp at hs
+  next h0 x d hcp =>
+    split at hs
+    next hc =>
+      simp only [Option.some.injEq] at hs; subst hs
+      obtain ⟨_, hvd⟩ := hc
+      subst hvd
+      obtain ⟨hq1, hd⟩ := hi.cPkGotData _ _ _ hcp
+      have hfront := front_payload hi (by simp only [inflight, hcp]) hq1
+      rw [hd] at hfront
+      refine Or.inr ⟨?_, hfront, rfl⟩
+      intro he
+      have hm := hv.pushedSub _ (mem_of_idx hfront)
+      rw [he] at hm
+      exact hv.callNz hm
+    next => simp at hs
+  next => simp at hs
+
+/-- a payload sits at one place only in `popped` — the place it has in `pushed` -/
+theorem popped_idx_unique {k : Kind} {s : St} (hi : Inv k s) (hv : VInv s) {i j v : Nat}
+    (hp : s.pushed[i]? = some v) (hj : s.popped[j]? = some v) : j = i :=
+  nodup_idx hv.pushedNd (idx_of_prefix (popped_prefix hi) hj) hp
+
+/-- the payload next in publication order has not been returned by any trypop yet -/
+theorem front_not_popped {k : Kind} {s : St} (hi : Inv k s) (hv : VInv s) {v : Nat}
+    (hp : s.pushed[s.popped.length]? = some v) : v ∉ s.popped := by
+  intro hm
+  obtain ⟨j, hj⟩ := idx_of_mem hm
+  have := popped_idx_unique hi hv hp hj
+  have := idx_lt hj
+  omega
+
+/-! #### a payload that a peek has seen stays visible until a trypop takes it -/
+
+/-- the trypop in progress has moved `head` and holds a payload in its hands -/
+def CPc.holds : CPc → Bool
+  | .moved _ _ => true
+  | .gotData _ _ _ => true
+  | .wrote _ _ => true
+  | .readBack _ _ => true
+  | _ => false
+
+theorem holds_of_inflight_nil {s : St} (h : inflight s = []) : s.cpc.holds = false := by
+  unfold inflight at h
+  cases hc : s.cpc <;> simp [hc, CPc.holds] at h ⊢
+
+structure PkInv (s : St) : Prop where
+  /-- peeks are recorded with the number of trypops returned so far -/
+  le : ∀ i v, (i, v) ∈ s.peeked → i ≤ s.popped.length
+  /-- after a peek has reported a payload, and until a trypop moves `head`, the stub's `next`
+      stays non-NULL (links are never undone; only the consumer moves `head`) -/
+  linked : ∀ v, (s.popped.length, v) ∈ s.peeked → s.cpc.holds = false → s.next s.head ≠ 0
+  gotData : ∀ h x d, s.cpc = .pkGotData h x d → s.next s.head ≠ 0
+
+theorem pkinv_init (stub : Nat) : PkInv (init stub) := by
+  constructor <;> simp [init]
+
+theorem pkinv_step {k : Kind} {s s' : St} {e : Ev} (hI : Inv k s) (h : PkInv s)
+    (hs : step k s e = some s') : PkInv s' := by
+  obtain ⟨hle, hlk, hgd⟩ := h
+  have hhd := head_mem hI
+  cases e <;> simp only [step] at hs
+  case wrNext t n x =>
+    split at hs
+    next v m hpc =>
+      split at hs <;> simp at hs
+      rename_i hc
+      obtain ⟨rfl, rfl⟩ := hc
+      subst hs
+      obtain ⟨_, hnq, _, _, _⟩ := hI.pHave _ _ _ hpc
+      have hne : s.head ≠ n := fun he => hnq (he ▸ hhd)
+      constructor
+      · exact hle
+      · intro v' hm hh; simp only [upd_apply, hne, if_false]; exact hlk v' hm hh
+      · intro h' x' d' hg; simp only [upd_apply, hne, if_false]; exact hgd _ _ _ hg
+    next v m p hpc =>
+      split at hs <;> simp at hs
+      rename_i hc
+      obtain ⟨rfl, rfl⟩ := hc
+      subst hs
+      obtain ⟨_, _, _, i, _, hi1⟩ := hI.pX _ _ _ _ hpc
+      have hx0 : x ≠ 0 := fun he => hI.nz (he ▸ mem_of_idx hi1)
+      constructor
+      · exact hle
+      · intro v' hm hh; have := hlk v' hm hh; simp only [upd_apply]; grind
+      · intro h' x' d' hg; have := hgd _ _ _ hg; simp only [upd_apply]; grind
+    next => simp at hs
+  case rdDataPeek t n d =>
+    split at hs
+    next h0 x hcp =>
+      split at hs <;> simp at hs
+      rename_i hc
+      subst hs
+      obtain ⟨hh, hnx⟩ := hI.cPkGotNext _ _ hcp
+      have hnz : s.next s.head ≠ 0 := by rw [← hh, hnx hc.2.1]; exact hc.2.1
+      constructor
+      · exact hle
+      · intro v' hm _; exact hnz
+      · intro _ _ _ _; exact hnz
+    next => simp at hs
+  case retPeek t v =>
+    split at hs
+    next h0 y hcp =>
+      split at hs <;> simp at hs
+      subst hs
+      constructor
+      · exact hle
+      · intro v' hm _; exact hlk v' hm (by rw [hcp]; rfl)
+      · intro _ _ _ hg; simp at hg
+    next h0 x d hcp =>
+      split at hs <;> simp at hs
+      subst hs
+      have hnz := hgd _ _ _ hcp
+      constructor
+      · intro i v' hm
+        simp only [List.mem_append, List.mem_singleton, Prod.mk.injEq] at hm
+        rcases hm with hm | ⟨rfl, _⟩
+        · exact hle _ _ hm
+        · exact Nat.le_refl _
+      · intro _ _ _; exact hnz
+      · intro _ _ _ hg; simp at hg
+    next => simp at hs
+  case retPop t v =>
+    split at hs
+    next h0 y hcp =>
+      split at hs <;> simp at hs
+      subst hs
+      constructor
+      · exact hle
+      · intro v' hm _; exact hlk v' hm (by rw [hcp]; rfl)
+      · intro _ _ _ hg; simp at hg
+    next h0 d hcp =>
+      split at hs <;> simp at hs
+      subst hs
+      constructor
+      · intro i v' hm; have := hle _ _ hm; simp only [List.length_append, List.length_singleton]; omega
+      · intro v' hm _
+        have := hle _ _ hm
+        simp only [List.length_append, List.length_singleton] at this
+        omega
+      · intro _ _ _ hg; simp at hg
+    next => simp at hs
+  case wrHead t x =>
+    split at hs
+    next h0 y hcp =>
+      split at hs <;> simp at hs
+      subst hs
+      constructor
+      · exact hle
+      · intro _ _ hh; simp [CPc.holds] at hh
+      · intro _ _ _ hg; simp at hg
+    next => simp at hs
+  -- every other step leaves `next`, `head`, `popped`, `peeked` alone and keeps `holds`
+  all_goals
+    first
+    | (split at hs <;> simp at hs
+       subst hs
+       constructor
+       · exact hle
+       · intro v' hm hh
+         first
+           | exact hlk v' hm hh
+           | exact hlk v' hm (by simp_all [CPc.holds])
+           | (simp [CPc.holds] at hh)
+       · intro h' x' d' hg
+         first
+           | exact hgd _ _ _ hg
+           | (simp at hg))
+    | (split at hs
+       all_goals first
+         | (simp at hs; done)
+         | (split at hs <;> simp at hs
+            subst hs
+            constructor
+            · exact hle
+            · intro v' hm hh
+              first
+                | exact hlk v' hm hh
+                | exact hlk v' hm (by simp_all [CPc.holds])
+                | (simp [CPc.holds] at hh)
+            · intro h' x' d' hg
+              first
+                | exact hgd _ _ _ hg
+                | (simp at hg)))
+
+theorem pkinv_of_run {k : Kind} {stub : Nat} (h0 : stub ≠ 0) {es : List Ev} {s : St}
+    (h : (sys k stub).run es = some s) : PkInv s :=
+  (Sys.inv_of_run (sys k stub) (fun s => (Inv k s ∧ VInv s) ∧ PkInv s)
+    ⟨⟨inv_init k stub h0, vinv_init stub⟩, pkinv_init stub⟩
+    (fun _ _ _ hi hs => ⟨⟨inv_step hi.1.1 hs, vinv_step hi.1.2 hs⟩, pkinv_step hi.1.1 hi.2 hs⟩) h).2
+
+/-- only `Kind.mpsc` has a peek (spsc_fifo.h / mpsc_relaxed_fifo.h do not) -/
+theorem spsc_no_peek (s : St) (t : Nat) : step .spsc s (.callPeek t) = none := by
+  simp [step]
 
 end LibfiberVerif.Mpsc
